@@ -175,15 +175,31 @@ package config
 //@ extern checkForDuplicates
 //@   modifies nothing
 
+// what the tree was built from (every declared endpoint takes part in "most specific declaration wins", also one whose
+// plugins are all switched off: it still shadows a broader pattern)
+//@ ghost var gTreeOf []sharedConfig.EndpointConfig
 //@ func BuildEndpointPolicyTree
 //@   prop C13
 //@   requires forall(j, 0, len(endpoints), pkey(endpoints[j].URL) != "")
-//@   modifies pdecl, pval, heap
+//@   modifies pdecl, pval, heap, gTreeOf
+//@   on entry do gTreeOf = endpoints
+//@   ensures[built-from-these-declarations] gTreeOf == endpoints
+//@   ensures[a-tree-unless-an-error] result1 == nil ==> result0 != nil
 //@   allocates EndpointTree, cell, map
 //@   loop 1 invariant[stored-values] polValues()
 //@   loop 1 invariant[policies-on-their-own-pattern] polOwn()
 //@   loop 1 invariant[no-shared-policy-map] polDistinct()
 //@   ensures[policies-on-their-own-pattern] result1 == nil ==> polValues() && polOwn() && polDistinct()
+
+// the policies a transaction is matched against are built from ALL endpoint declarations of the configuration
+//@ extern notifyEnabledPlugins
+//@   modifies nothing
+//@ func BuildPolicyData
+//@   prop C13
+//@   requires config != nil && forall(j, 0, len(config.Endpoints), pkey(config.Endpoints[j].URL) != "")
+//@   modifies pdecl, pval, heap, gTreeOf
+//@   allocates EndpointTree, cell, map, PoliciesData
+//@   ensures[tree-of-every-declared-endpoint] result1 == nil ==> gTreeOf == old(config.Endpoints)
 
 //@ func isDeclaredOn
 //@   prop C13
